@@ -80,6 +80,29 @@ CHECKS = {
              'empty (none exists in the pinned code). Upstream/row_func failures are outside C18 (C04).',
         technique='TLA+ protocol model checked with TLC incl. liveness + TLC trace validation of schedules driven through the real code by a cooperative scheduler',
         design='6/C18', specs=['Parallelize.tla', 'ParallelizeTrace.tla']),
+    'C08': dict(
+        level='model_checking',
+        text='Checkpoint.tla has one action per file operation of the checkpoint writer (open/truncate, write, flush - separators are not '
+             'flushed, close, rename) plus Kill (any prefix of the unflushed buffer survives), StepFails, NextRun (resume iff the final name '
+             'exists) and DeleteDir; TLC checks PickedUpIsComplete, NeverBadResult and the action properties InterruptedNeverUsed, '
+             'ResumeSkipsUpstream, DeleteRecomputes for all shapes up to 3 resources x 3 rows and up to 4 runs. Exhaustive crash-point '
+             'enumeration on the real code: for 8 (quick) / 16 shapes every recorded file operation k is killed right before and right after, '
+             'or made to raise; sources fail at every row and a step after the checkpoint fails at every row. The operation prefix, the '
+             'directory afterwards and a fresh follow-up run are validated by TLC against the model (CheckpointTrace.tla).',
+        note='Kill = os._exit in a forked child; the file system itself is assumed to keep flushed data and to rename atomically. Two-checkpoint chains are covered by C07.',
+        technique='TLA+ storage protocol model checked with TLC + exhaustive crash-point enumeration of the real writer validated by a TLC trace spec',
+        design='6/C08', specs=['Checkpoint.tla', 'CheckpointTrace.tla']),
+    'C19': dict(
+        level='model_checking',
+        text='Dump.tla models dump_to_path as its sequence of file operations (temp file writes, close, non-atomic copy as create/chunk/close, '
+             'unlink; descriptor last) with a kill between any two; TLC checks DescriptorLast and NoEarlyDescriptor. Exhaustive crash-point '
+             'enumeration on the real code for 7 (quick) / 13 dumps (1..3 resources, 0..5 rows, csv and json): a forked child is killed right '
+             'before and right after every recorded operation (quick: one representative per run of consecutive temp-file writes); the '
+             'recorded prefix and the directory are validated by TLC (DumpTrace.tla): model file system = real one, and a parseable '
+             'datapackage.json implies every listed file exists with the recorded size and md5.',
+        note='Kill = os._exit in a forked child; shutil.copy replaced by a chunked copy so that a kill can fall inside it; fresh output directory.',
+        technique='TLA+ storage protocol model checked with TLC + exhaustive crash-point enumeration of the real dumper validated by a TLC trace spec',
+        design='6/C19', specs=['Dump.tla', 'DumpTrace.tla']),
 }
 
 NOT_YET = 'check not built yet (build in progress, see DESIGN.md section 10)'
